@@ -241,12 +241,114 @@ def check_panic_sites(prop):
                         'baseline': os.path.relpath(BASELINE, ROOT)}}
 
 
+# ---------------------------------------------------------------- impl inventory (code ADDED BESIDE the tied functions)
+IMPL_BASELINE = os.path.join(CRATE, 'impl_baseline.json')
+STD_TRAIT_METHODS = {
+    'PartialEq': ['eq', 'ne'], 'Eq': [], 'PartialOrd': ['partial_cmp', 'lt', 'le', 'gt', 'ge'],
+    'Ord': ['cmp', 'max', 'min', 'clamp'], 'Clone': ['clone', 'clone_from'], 'Drop': ['drop'], 'Default': ['default'],
+    'From': ['from'], 'Into': ['into'], 'Deref': ['deref'], 'DerefMut': ['deref_mut'], 'AsRef': ['as_ref'], 'AsMut': ['as_mut'],
+    'BitAnd': ['bitand'], 'BitOr': ['bitor'], 'Borrow': ['borrow'], 'Hash': ['hash'],
+}
+SENSITIVE_STD = ['Drop', 'Clone', 'PartialEq', 'Eq', 'PartialOrd', 'Ord', 'Deref', 'DerefMut']
+
+
+def load_impls():
+    return json.load(open(os.path.join(GEN, 'impl_inventory.json')))
+
+
+def make_impl_baseline(inv):
+    """No line numbers: inherent method names per type, methods DEFINED per (file, trait, type) impl, crate traits."""
+    inherent, impls = {}, {}
+    for x in inv['inherent']:
+        inherent.setdefault(x['type'], set()).add(x['fn'])
+    for x in inv['impls']:
+        k = '%s :: %s for %s' % (x['file'], x['trait_full'], x['type'])
+        impls.setdefault(k, set()).update(x['methods'])
+    return {'inherent': {k: sorted(v) for k, v in sorted(inherent.items())},
+            'impls': {k: sorted(v) for k, v in sorted(impls.items())},
+            'traits': {t['trait']: sorted(t['methods']) for t in inv['traits']}}
+
+
+def check_impl_inventory(prop):
+    """Compares coq/Gen/impl_inventory.json (tree under test) with rs2v/impl_baseline.json for the files the fragment
+    watches ("impl_inventory": {"files": [globs]}).  Broken obligations: a NEW inherent method whose name is a method of
+    a trait implemented for that type (or of a blanket impl that applies to it); a NEW method defined inside an
+    existing trait impl block; a NEW (trait, type) impl of Drop / Clone / PartialEq / Eq / PartialOrd / Ord / Deref or
+    of a trait of the crate.  Quiet: new inherent methods that shadow nothing, impls of other std traits, an impl
+    block whose type or trait was only renamed (same file, same methods, the old key gone)."""
+    cfg = prop.get('impl_inventory')
+    if not cfg:
+        return None
+    watched = cfg.get('files', [])
+    inv = load_impls()
+    base = json.load(open(IMPL_BASELINE)) if os.path.exists(IMPL_BASELINE) else {'inherent': {}, 'impls': {}, 'traits': {}}
+    crate_traits = {t['trait']: t['methods'] for t in inv['traits']}
+    methods_of = lambda tr: crate_traits.get(tr, STD_TRAIT_METHODS.get(tr, []))
+    # traits implemented for each type (anywhere in the crate), blanket impls
+    traits_of, blankets = {}, []
+    for x in inv['impls']:
+        if x['blanket']:
+            blankets.append(x)
+        else:
+            traits_of.setdefault(x['type'], set()).add(x['trait'])
+    def shadowed_by(ty, fn):
+        ts = set(traits_of.get(ty, set()))
+        for b in blankets:
+            if any(bt in ts for bt in b['bounds']):
+                ts.add(b['trait'])
+        return sorted(t for t in ts if fn in methods_of(t))
+    broken = []
+    cur = make_impl_baseline(inv)
+    # (1) new inherent methods that shadow a trait method
+    for x in inv['inherent']:
+        if not _match_file(x['file'], watched) or x['fn'] in base['inherent'].get(x['type'], []):
+            continue
+        sh = shadowed_by(x['type'], x['fn'])
+        if sh:
+            broken.append('impl:%s:%d new INHERENT method `%s::%s` shadows the method of the same name of trait %s implemented for that type: '
+                          'callers on the concrete type reach it instead of the tied trait method (not in rs2v/impl_baseline.json)%s'
+                          % (x['file'], x['line'], x['type'], x['fn'], '/'.join(sh), (' [in %s]' % x['ctx']) if x['ctx'] else ''))
+    # (2) new methods inside existing impl blocks, (3) new sensitive (trait, type) pairs
+    gone = [k for k in base['impls'] if k not in cur['impls']]
+    seen = set()
+    for x in inv['impls']:
+        if not _match_file(x['file'], watched):
+            continue
+        k = '%s :: %s for %s' % (x['file'], x['trait_full'], x['type'])
+        if k in base['impls']:
+            for mth in x['methods']:
+                if mth not in base['impls'][k] and (k, mth) not in seen:
+                    seen.add((k, mth))
+                    broken.append('impl:%s:%d new method `%s` DEFINED inside the existing `impl %s for %s` (an override of a provided method?) - not in rs2v/impl_baseline.json%s'
+                                  % (x['file'], x['line'], mth, x['trait_full'], x['type'], (' [in %s]' % x['ctx']) if x['ctx'] else ''))
+        elif k not in seen:
+            seen.add(k)
+            if x['trait'] in SENSITIVE_STD or x['trait'] in crate_traits:
+                # a pure rename: an impl of the same file with the same methods disappeared
+                ren = [g for g in gone if g.startswith(x['file'] + ' :: ') and base['impls'][g] == sorted(x['methods'])
+                       and (g.split(' :: ')[1].split(' for ')[0] == x['trait_full'] or g.endswith(' for ' + x['type']))]
+                if ren:
+                    gone.remove(ren[0])
+                    continue
+                broken.append('impl:%s:%d new `impl %s for %s` (methods: %s) - not in rs2v/impl_baseline.json%s'
+                              % (x['file'], x['line'], x['trait_full'], x['type'], ', '.join(x['methods']) or '-', (' [in %s]' % x['ctx']) if x['ctx'] else ''))
+    keys = sorted(k for k in base['impls'] if _match_file(k.split(' :: ')[0], watched))
+    return {'obligations': len(keys) + 1, 'broken': broken,
+            'summary': {'watched_files': watched, 'impl_blocks': len(keys), 'inherent_methods': len(inv['inherent']),
+                        'crate_traits': len(crate_traits), 'baseline': os.path.relpath(IMPL_BASELINE, ROOT)}}
+
+
+
 if __name__ == '__main__':
     st = regenerate(os.environ.get('VERIF_REPO', '/repo'))
     if '--update-panic-baseline' in sys.argv:
         b = make_baseline(load_sites()['sites'])
         open(BASELINE, 'w').write(json.dumps(b, indent=1, sort_keys=True) + '\n')
         print('rs2v: panic baseline written: %d (file, fn, kind) groups, %d sites' % (len(b), sum(x['count'] for x in b.values())))
+    if '--update-impl-baseline' in sys.argv:
+        b = make_impl_baseline(load_impls())
+        open(IMPL_BASELINE, 'w').write(json.dumps(b, indent=1, sort_keys=True) + '\n')
+        print('rs2v: impl baseline written: %d types with inherent methods, %d trait impl blocks, %d crate traits' % (len(b['inherent']), len(b['impls']), len(b['traits'])))
     bad = [k for k in st if not k['ok']]
     print('rs2v: %d kernels regenerated, %d failed' % (len(st) - len(bad), len(bad)))
     for k in bad:
